@@ -66,6 +66,12 @@ func (v *vmCase) wit(extra map[string]any) map[string]any {
 
 // startVM starts an instance plus a manager for VNode with injected delays.
 func startVM(c *vlib.Ctx, wd *vlib.Watchdog, i int, r *vlib.R, maxDelayMs int) (*vmCase, error) {
+	return startVMWith(c, wd, i, r, maxDelayMs, nil)
+}
+
+// startVMWith: pre (if any) populates the store before the manager is started (a manager that starts
+// on existing data).
+func startVMWith(c *vlib.Ctx, wd *vlib.Watchdog, i int, r *vlib.R, maxDelayMs int, pre func(d *gdriver) error) (*vmCase, error) {
 	in, err := vlib.StartInstance(vlib.InstCfg{ID: fmt.Sprintf("%s-%d", c.ID, i)})
 	if err != nil {
 		return nil, err
@@ -115,6 +121,12 @@ func startVM(c *vlib.Ctx, wd *vlib.Watchdog, i int, r *vlib.R, maxDelayMs int) (
 		}
 	})
 	v.d = newGdriver(r, nc, in.RootID, tag)
+	if pre != nil {
+		if err := pre(v.d); err != nil {
+			in.Stop()
+			return nil, err
+		}
+	}
 	v.mgr = client.NewManager(mnc, v.mon.construct, []string{"vParent"})
 	v.done = make(chan error, 1)
 	go func() { v.done <- v.mgr.Run() }()
@@ -353,11 +365,85 @@ func (v *vmCase) quiesce() (rounds int, bad string, err error) {
 func runC07(tier string, _ []string) int {
 	c := vlib.NewCtx("C07", tier, "exploration")
 	vlib.SetPortBlock(7)
-	c.SetRule("per case a fresh instance and a real client.Manager for an instrumented client type (vNode, children vChild, parent types group + vParent) registered through the public API; a PRNG history of ~15 operations (create vNode under root / group / nested group / vParent, add and remove vChild, delete and undelete vNodes and the groups holding them, mirror (of managed nodes and of the groups holding them), move, point updates, a vNode created with an undecodable configuration that is then corrected, delete / unrelated creation / undelete in quick succession, a deletion carried twice in one request, a vNode whose configuration stays undecodable (nothing is demanded for it, everything for the others)) with 0-40 ms delays injected into the client's Run start / return and at the manager.beforeConstruct / cs.afterStop hook sites; after operations the harness forces a rescan (creating an unrelated node) and waits, in logical steps, for a scan that began afterwards; invariants: I1 never two clients of one placement at once (whole event log), I2 running set == live configured placements with children as constructed == live children (within 6 forced rescans, then stable for 2 more), I3 Manager.Stop stops every client and Run returns (in a quarter of the histories Stop comes right after the last operation, during the scans and restarts it caused). distinct = (operation kinds in the history, rounds needed, number of placements)")
+	c.SetRule("per case a fresh instance and a real client.Manager for an instrumented client type (vNode, children vChild, parent types group + vParent) registered through the public API; a PRNG history of ~15 operations (create vNode under root / group / nested group / vParent, add and remove vChild, delete and undelete vNodes and the groups holding them, mirror (of managed nodes and of the groups holding them), move, point updates, a vNode created with an undecodable configuration that is then corrected, delete / unrelated creation / undelete in quick succession, a deletion carried twice in one request, a vNode whose configuration stays undecodable (nothing is demanded for it, everything for the others)) with 0-40 ms delays injected into the client's Run start / return and at the manager.beforeConstruct / cs.afterStop hook sites; after operations the harness forces a rescan (creating an unrelated node) and waits, in logical steps, for a scan that began afterwards; invariants: I1 never two clients of one placement at once (whole event log), I2 running set == live configured placements with children as constructed == live children (within 6 forced rescans, then stable for 2 more), I3 Manager.Stop stops every client and Run returns (in a quarter of the histories Stop comes right after the last operation, during the scans and restarts it caused). One more manager starts on existing data and is left alone after an undeletion and the deletion of a group: its periodic rescan (one minute without events) must bring the clients in line within 110 s. distinct = (operation kinds in the history, rounds needed, number of placements)")
 	c.Assume("the instrumented client's Run returns promptly when Stop is called; for a node whose configuration stays undecodable nothing is demanded (the property does not say what should run for it)")
 	nHist := c.N(100, 600)
 	maxDelay := 40
 	wd := c.NewWatchdog()
+	// ---- a manager that starts on existing data and is then left alone: changes that do not by
+	// themselves make it look (an undeletion, the deletion of a group that holds a managed node) are
+	// picked up by its periodic rescan (every minute without events); nothing forces a rescan here
+	patient := make(chan string, 1)
+	go func() {
+		r := vlib.NewR(c.Seed, "c07patient", 0)
+		var x, y, grp string
+		v, err := startVMWith(c, wd, 9000, r, 0, func(d *gdriver) error {
+			mk := func(parent, typ string) (string, error) {
+				id := d.newID()
+				if e, err := d.sendNode(id, data.Points{{Type: "description", Time: d.now(), Text: "p " + id, Origin: "harness"}, {Type: "port", Time: d.now(), Value: 7, Origin: "harness"}}); err != nil || e != "" {
+					return id, fmt.Errorf("%v %s", err, e)
+				}
+				if e, err := d.sendEdge(id, parent, data.Points{{Type: data.PointTypeTombstone, Time: d.now()}, {Type: data.PointTypeNodeType, Text: typ}}); err != nil || e != "" {
+					return id, fmt.Errorf("%v %s", err, e)
+				}
+				d.Made = append(d.Made, id)
+				return id, nil
+			}
+			var err error
+			if x, err = mk(d.g.Root, "vNode"); err != nil {
+				return err
+			}
+			if grp, err = mk(d.g.Root, "group"); err != nil {
+				return err
+			}
+			if y, err = mk(grp, "vNode"); err != nil {
+				return err
+			}
+			if e, err := d.sendEdge(x, d.g.Root, data.Points{{Type: data.PointTypeTombstone, Time: d.now(), Value: 1}}); err != nil || e != "" {
+				return fmt.Errorf("%v %s", err, e)
+			}
+			return nil
+		})
+		if err != nil {
+			c.Inconclusive("patient case: " + err.Error())
+			patient <- ""
+			return
+		}
+		defer v.close()
+		d := v.d
+		waitFor := func(what string, limit time.Duration, okf func(map[string][]vEvent) bool) string {
+			deadline := time.Now().Add(limit)
+			for time.Now().Before(deadline) {
+				if okf(runningClients(v.mon.snapshot())) {
+					return ""
+				}
+				time.Sleep(50 * time.Millisecond)
+			}
+			return what
+		}
+		rootKey := func(id string) string { return d.g.Root + "/" + id }
+		// the start-up scan: a client for y (in the group), none for the deleted x
+		if bad := waitFor("start-up scan", 30*time.Second, func(run map[string][]vEvent) bool { return len(run[grp+"/"+y]) == 1 && len(run[rootKey(x)]) == 0 }); bad != "" {
+			patient <- "a manager started on existing data did not reach the expected clients within 30 s (one for the node in the group, none for the deleted node)"
+			return
+		}
+		// now x comes back and the group goes away; nothing else happens
+		if e, err := d.sendEdge(x, d.g.Root, data.Points{{Type: data.PointTypeTombstone, Time: d.now(), Value: 0}}); err != nil || e != "" {
+			patient <- ""
+			return
+		}
+		if e, err := d.sendEdge(grp, d.g.Root, data.Points{{Type: data.PointTypeTombstone, Time: d.now(), Value: 1}}); err != nil || e != "" {
+			patient <- ""
+			return
+		}
+		if bad := waitFor("periodic rescan", 110*time.Second, func(run map[string][]vEvent) bool { return len(run[rootKey(x)]) == 1 && len(run[grp+"/"+y]) == 0 }); bad != "" {
+			run := runningClients(v.mon.snapshot())
+			patient <- fmt.Sprintf("110 s after an undeletion and the deletion of a group (no other events): %d clients for the undeleted node %s, %d for node %s inside the deleted group; the manager rescans every minute", len(run[rootKey(x)]), x, len(run[grp+"/"+y]), y)
+			return
+		}
+		c.Count("changes_picked_up_by_the_periodic_rescan", 1)
+		patient <- ""
+	}()
 	vlib.Parallel(nHist, 6, func(i int) {
 		r := vlib.NewR(c.Seed, "c07", i)
 		v, err := startVM(c, wd, i, r, maxDelay)
@@ -676,6 +762,9 @@ func runC07(tier string, _ []string) int {
 			c.Sample(map[string]any{"ops": d.Log[:min(len(d.Log), 10)], "kinds": keysOf(kinds), "clients": constructed})
 		}
 	})
+	if res := <-patient; res != "" {
+		c.Violate("manager:running-set-wrong:without-forced-rescan", res, map[string]any{"seed": c.Seed})
+	}
 	c.Require("quiescent_evaluations", 20)
 	c.Require("clients_constructed", 20)
 	c.Require("manager_stops_checked", 5)
